@@ -30,7 +30,7 @@ def make_graph(sizes, seed, shape="random"):
     off = 0
     if shape == "hubmid":
         for sz in sizes:
-            hub = off + (2 * sz) // 3 - 3 + (seed % 7)
+            hub = min(off + sz - 2, max(off + 1, off + (2 * sz) // 3 - 3 + (seed % 7)))
             for a in range(off, hub):
                 A[a, hub] = A[hub, a] = 1
             for a in range(hub, off + sz - 1):
